@@ -218,3 +218,6 @@ def check(ctx, res) -> None:
                         "them to the text in which the reads have already been replaced: when a read of the variable stands before its assignment the "
                         "text has shifted, part of the definition is left behind and neighbouring code is cut away", function=g.qualname)
     res.floor("R04.6", "line-table lookups feeding the cut in _inline_variable", n6, 2)
+
+    # ---- R04.7 which imports are added is never decided on the module's text lines
+    common.import_presence_rule(ctx, res, "R04.7")
